@@ -219,6 +219,11 @@ def farzone(args):
         # pattern maximum over a coarse grid
         m.compute_far_field(Angle(0, 15, 7 if ground else 13), Angle(0, 30, 12), dist=R, **({'pwr': pw} if pw else {}))
         emax = max(np.abs(m.far_field.e_theta).max(), np.abs(m.far_field.e_phi).max())
+        segl = [float(np.linalg.norm(np.array(sg.p2, float) - np.array(sg.p1, float))) for g_ in m.geo for sg in g_.segments]
+        kd = 2 * math.pi / lam * max(segl)
+        pfac = math.sqrt(pw / m.power) if pw else 1.0
+        disc = (kd ** 2 / 24) * m.m * (2 * math.pi / lam) ** 2 * pfac * (2 if ground else 1) * \
+            sum(abs(c) for c in m.current) * max(segl) / R
         for th, ph in dirs:
             t, p_ = math.radians(th), math.radians(ph)
             rhat = np.array([math.sin(t) * math.cos(p_), math.sin(t) * math.sin(p_), math.cos(t)])
@@ -239,7 +244,13 @@ def farzone(args):
             en = np.linalg.norm(e)
             hn = np.linalg.norm(h)
             if en > 0.05 * emax:
-                if abs(np.dot(e, rhat)) > 3e-2 * en or abs(np.dot(h, rhat)) > 3e-2 * hn:
+                # the pulse model itself (piecewise constant current, piecewise constant charge shifted by half a
+                # segment) has a radial E component that does not decay: per pulse  w |A . rhat| (1 - sinc(k d cos(psi) / 2))
+                # <= w |A| (k d)^2 / 24  (d = segment length, psi = angle between wire and direction); the code reproduces
+                # it exactly (verified against the true-kernel oracle to 1e-5).  Transversality is therefore demanded up
+                # to this discretisation term, bounded with the currents of the model; H = curl A has no such term.
+                allow = 3e-2 * en + disc
+                if abs(np.dot(e, rhat)) > allow or abs(np.dot(h, rhat)) > 3e-2 * hn:
                     out['mism'].append(dict(what='far-zone-field-not-transverse',
                                             er=float(abs(np.dot(e, rhat)) / en)))
                 if abs(en / hn - 376.7) > 0.005 * 376.7:
